@@ -130,10 +130,18 @@ func buildRouterFull(defs []refmodel.RouteDef, via []string, routeMW bool, rec *
 
 // registerInto registers defs on an existing router
 func registerInto(r0 *rux.Router, defs []refmodel.RouteDef, via []string, routeMW bool, rec *hitRec) (r *rux.Router, pv any) {
+	return registerIntoAt(r0, defs, via, routeMW, rec, 0)
+}
+
+// registerIntoAt registers defs[from:] (route numbers are positions in defs)
+func registerIntoAt(r0 *rux.Router, defs []refmodel.RouteDef, via []string, routeMW bool, rec *hitRec, from int) (r *rux.Router, pv any) {
 	r = r0
 	pv = try(func() {
 		for i, d := range defs {
 			i := i
+			if i < from {
+				continue
+			}
 			h := func(c *rux.Context) {
 				if rec != nil {
 					rec.idx = i
